@@ -256,6 +256,7 @@ def check(model: Model, run: Run) -> None:
     empty_values_accepted(model, run)
     serialisers_are_pure(model, run)
     components_rendered_as_held(model, run)
+    no_default_for_empty_text(model, run)
     from .c17 import hooks_store_fields_as_given
     hooks_store_fields_as_given(model, run, model.subclasses(f"{FILTER}.LDAPFilter"), "J14-fields-held-as-given",
                                 "the filter from_string builds is changed again on construction, so it is not the filter the text denotes")
@@ -647,6 +648,36 @@ def empty_values_accepted(model: Model, run: Run) -> None:
     total_raises = sum(1 for f_ in fa.parser_functions for r in walk_no_nested(f_.node) if isinstance(r, ast.Raise))
     run.coverage["raises_in_value_building_functions"] = n_raise
     run.floor("raise statements in the filter string parser", total_raises, 10)
+
+
+def no_default_for_empty_text(model: Model, run: Run, rule: str = "J15-empty-text-is-a-value") -> None:
+    """J15: in the filter string parser, `<text> or <other>` with <text> a bytes / str value that cannot be None replaces an
+    *empty* piece of the input by something else.  Empty assertion values, empty initial / final substrings and empty
+    attribute options are all legal input; swapping one for a fallback changes which filter the text denotes."""
+    from ..anchors import filt as filter_anchors
+    from .c05 import may_raise
+    r = may_raise(model).r
+    fa = filter_anchors(model)
+    n = 0
+    for fi in fa.parser_functions:
+        for x in walk_no_nested(fi.node):
+            if not (isinstance(x, ast.BoolOp) and isinstance(x.op, ast.Or) and len(x.values) >= 2):
+                continue
+            left = x.values[0]
+            try:
+                t = r.type_of(left, fi)
+            except Exception:
+                continue
+            if t not in (("prim", "bytes"), ("prim", "str"), ("prim", "bytearray"), ("prim", "memoryview"), ("prim", "strlike"), ("prim", "byteslike")):
+                continue
+            if isinstance(left, ast.Constant):
+                continue
+            # only where the result is used as a value (an operand of a test is a truth test, which is fine)
+            n += 1
+            run.ob(rule, False, {"function": fi.name, "expression": norm(x)[:60]})
+            run.fail(Finding(rule, fi.qualname, norm(x)[:80], f"{fi.name} evaluates `{norm(x)[:70]}`: the left side is {t[1]} text that is never None, so the fallback is taken exactly when that "
+                             "piece of the input is empty - a legal value that now parses as something else", model.loc(fi.module, x)))
+    run.ob(rule, True, {"parser_functions": len(fa.parser_functions), "sites": n})
 
 
 def operator_agreement(model: Model, run: Run) -> None:
